@@ -80,7 +80,8 @@ Definition cnt (f : item -> bool) (l : list item) : nat := length (filter f l).
 (* "closing", as the application can know it *)
 Definition closing (a : acc) : bool := a_sent a || is_some (a_hc a) || a_sc a || a_local a.
 
-Definition is_blocked (t : ltag) := match t with TBlocked => true | _ => false end.
+(* a coroutine of the application (on_message, or open()) is pending: the receive loop cannot run *)
+Definition is_blocked (t : ltag) := match t with TBlocked | TOpening => true | _ => false end.
 Definition is_close_ev (e : event) := match e with ELocalClose _ _ => true | _ => false end.
 
 Definition note_event (e : event) (a : acc) : acc :=
